@@ -109,7 +109,7 @@ def check_split_run(k0: int, k1: int, k2: int, bufsize: int, xs: List[int]) -> b
     pre: 0 <= k0 <= 6 and 0 <= k1 <= 6 and -1 <= k2 <= 1
     pre: 1 <= bufsize <= B.BUF
     pre: len(xs) <= B.FLOW
-    pre: h.in_shard(k0 + 7 * (k1 % 2))
+    pre: h.in_shard(k0 + 7 * (k1 % 4))
     post: _
     """
     k0 = h.concrete(k0, 0, 6)
@@ -316,7 +316,7 @@ def check_accumulator(kind: int, ops: List[int], cs: List[int]) -> bool:
 
 
 CONDITIONS = [
-    dict(fn="check_split_run", shards=(14, 14), budget=(80, 1200),
+    dict(fn="check_split_run", shards=(28, 28), budget=(80, 900),
          smoke=["check_split_run(0, 1, -1, 1, [3, 4])", "check_split_run(4, 0, -1, 2, [3, 4])",
                 "check_split_run(5, 3, 0, 2, [3])", "check_split_run(2, 2, -1, 1, [])", "check_split_run(6, 0, 1, 2, [3, 4])",
                 "check_split_run(6, 4, 0, 3, [3, 4, 5])"]),
